@@ -14,8 +14,8 @@ from ..core import Verdict
 PID = "C06"
 SHARDS = {"quick": 8, "thorough": 16}
 
-KINDS = ["for", "tablerow", "include_for", "render_for", "include", "render", "macro"]
-REPEATING = {"for", "tablerow", "include_for", "render_for"}
+KINDS = ["for", "tablerow", "tablerow_cols", "include_for", "render_for", "include", "render", "macro"]
+REPEATING = {"for", "tablerow", "tablerow_cols", "include_for", "render_for"}
 ISOLATING = {"render_for", "render", "macro"}  # include is not allowed below these
 MARK = "ABCD"
 
@@ -37,6 +37,8 @@ def build(levels) -> tuple[str, dict, dict]:
             return "{% for x" + str(i) + " in " + arr + " %}" + inner + "{% endfor %}"
         if kind == "tablerow":
             return "{% tablerow x" + str(i) + " in " + arr + " %}" + inner + "{% endtablerow %}"
+        if kind == "tablerow_cols":  # fewer columns than items: the iteration count is the length, not the column count
+            return "{% tablerow x" + str(i) + " in " + arr + " cols: 2 %}" + inner + "{% endtablerow %}"
         if kind == "include_for":
             partials[f"p{i}"] = inner
             return "{% include 'p" + str(i) + "' for " + arr + " %}"
@@ -181,7 +183,7 @@ def campaign(ctx: core.Ctx, tier: str, shard: int, nshards: int) -> None:
 def finish_kwargs(ctx: core.Ctx, tier: str) -> dict:
     return {
         "rule": (
-            "Nests of depth 1-3 over {for, tablerow, include-for, render-for, plain include/render, macro call} x "
+            "Nests of depth 1-3 over {for, tablerow, tablerow with cols: 2, include-for, render-for, plain include/render, macro call} x "
             "lengths {0,1,2,3,5} x 5 limits around the product (exhaustive; quick takes 1/12 of depth 3), plus random "
             "nests of depth 3-4 with lengths 0-12 and limits 1-200. Each level emits its own marker; a nest whose "
             "reachable prefix product exceeds the limit must raise LoopIterationLimitError, otherwise the render "
